@@ -529,10 +529,11 @@ Proof.
       assert (Hws1 : is_ws c1 = false).
       { destruct Hc1 as [Hq|Hq]; apply N.eqb_eq in Hq; subst; reflexivity. }
       rewrite skip_ws_head in Es by assumption. inversion Es; subst c.
-      destruct Hc1 as [Hq|Hq]; congruence.
-    + pose proof (pv_ext F p v1 [] t HF (or_intror En)) as X. rewrite Hfull in X. inversion X. subst. congruence.
+      destruct Hc1 as [Hq|Hq]; [rewrite A in Hq|rewrite B in Hq]; discriminate Hq.
+    + pose proof (pv_ext F p v1 [] t HF (or_intror En)) as X. rewrite Hfull in X.
+      injection X as _ Ht'. cbn [app] in Ht'. apply Ht. symmetry. exact Ht'.
   - pose proof (pv_ext F p v1 (c0 :: r0) t HF (or_introl ltac:(discriminate))) as X.
-    rewrite Hfull in X. inversion X.
+    rewrite Hfull in X. injection X as _ Ht'. cbn [app] in Ht'. discriminate Ht'.
 Qed.
 
 (* the cache wrapper *)
